@@ -65,7 +65,7 @@ func c10Build(hier int, toggles []int) (*Dir, map[string][]byte) {
 	for i := 0; i < n; i++ {
 		cfg := &refcfg.CertCfg{Path: name(i) + ".yaml", Subject: fmt.Sprintf("CN=Entity %d, O=C10", i), KeyAlg: "P-224"}
 		if has(6) {
-			cfg.Path = fmt.Sprintf("tier%d/deep/%s.yml", i, name(i))
+			cfg.Path = fmt.Sprintf("tier%d/deep.d/%s.v2.yml", i, name(i))
 			cfg.Alias = alias(i)
 		}
 		if parents[i] >= 0 {
